@@ -197,16 +197,22 @@ class SingletonLaw(BoolExpr):
             "S^S": (("^", "B", "B"), "Empty"), "S^~S": (("^", "B", ("~", "B")), "Whole"), "~S|S": (("|", ("~", "B"), "B"), "Whole"),
             "S-S(copy)": (("-", "B", "B2"), "Empty"), "S^S(copy)": (("^", "B", "B2"), "Empty")}
 
-    def __init__(self, S, law, **kw):
+    def __init__(self, S, law, history=False, **kw):
         super().__init__("unit", S, "B", **kw)
         self.S = S
         self.law = law
+        self.history = history
         self.names = ["t"]
 
     def run(self, xs):
         env = self.operands(xs)
         tx, ty = self.shift(xs)
         env["B2"] = geom.make(self.B, tx, ty)
+        if self.history:  # the law must also hold for a shape that was used before and then moved in place
+            for key in ("B", "B2"):
+                env[key] | env["A"]
+                env[key] in env["A"]
+                env[key].move(40, 0)
         e, want = self.LAWS[self.law]
         Rs = ev_shape(e, env)
         return {"R": geom.describe(Rs) if isinstance(Rs, (EmptyShape, WholeShape)) else {"kind": geom.describe(Rs)["kind"]}, "want": want}
@@ -238,6 +244,10 @@ class SingletonLaw(BoolExpr):
         return sig
 
 
+def F_(a, b):
+    return str(F(a, b))
+
+
 def specs(tier):
     out = []
     OPS = ["|", "&", "-", "^"]
@@ -249,6 +259,10 @@ def specs(tier):
     for S in shapes:
         for law in SingletonLaw.LAWS:
             out.append(dict(module="checks.c06", scenario="SingletonLaw", params=dict(S=S, law=law)))
+    for S in shapes[:2] if tier == "quick" else shapes:
+        for law in ("S-S", "S|~S", "S^S"):
+            out.append(dict(module="checks.c06", scenario="SingletonLaw", params=dict(S=S, law=law, history=True)))
+    out.append(dict(module="checks.c06", scenario="WellFormed", params=dict(A="hollow", B="tinyring", expr=["|", "A", "B"], lim=F_(1, 20)), time_budget=None if tier == "quick" else 2400))
     return out
 
 
